@@ -244,7 +244,7 @@ func sizeBucket(n int) string {
 }
 
 func (r *runner) onePolicy(id string, p *vd.Policy, forceOracle bool) bool {
-	goReply, _ := p.Compile()
+	goReply, goInsts := p.Compile()
 	req := p.Request()
 	modelReply, err := r.model.Ask(req)
 	if err != nil {
@@ -336,6 +336,9 @@ func (r *runner) onePolicy(id string, p *vd.Policy, forceOracle bool) bool {
 		if ok {
 			m.Oracle, _ = r.model.Ask("X " + p.Arch + " " + p.Endian + " " + p.Body() + " " + strings.TrimPrefix(goReply, "OK "))
 			r.sum.OracleRuns++
+			if m.Oracle == "BAD-REQUEST" && goInsts != nil {
+				m.Oracle = vd.SearchVM(r.model, p, goInsts)
+			}
 		}
 		// C07 is about the verdict itself: the model's verdict is the specification's
 		// (Proofs.C07.accepted_iff_not_defective), so a policy on which the two verdicts differ
